@@ -87,7 +87,14 @@ fn judge_one(cx: &Cx, c: &Compared, obs: &Obs, flavour: &str, event: usize, cnt:
         // a null produced by one execution is overwritten by the object another execution produced.
         let at = diff.split(" at ").nth(1).unwrap_or("");
         let repeated = at.split('/').filter(|s| !s.is_empty() && s.parse::<usize>().is_err()).any(|k| agv_common::casecheck::key_occurrences(&c.doc, k) > 1);
-        if repeated && faults > 0 {
+        // (an expected error — a failing resolver, or for dynamic schemas a value of the wrong kind — lies at or below it)
+        let at_path: Vec<&str> = at.trim().split('/').filter(|s| !s.is_empty()).collect();
+        let pre = at_path.join(".");
+        let error_below = c.reference.errors.iter().any(|e| {
+            let p = path_str(&e.path);
+            p == pre || p.starts_with(&format!("{pre}."))
+        });
+        if repeated && (faults > 0 || (kind == "expected-null" && error_below)) {
             cx.violation(
                 Violation::new("partial-failure-merged-for-repeated-key", format!("{diff}\n {}", describe()), case()).key("flavour", flavour),
             );
